@@ -94,6 +94,24 @@ func ioFaults(r *Run) {
 				w.DeleteRecovery(r)
 			}
 		}
+		// odd but harmless archive states: a recovery file emptied by an
+		// earlier torn write (it holds no packets and is skipped), a backup
+		// copy of a recovery file
+		if !par1Set && t.Bool(1, 5, "empty-volume") {
+			if k := w.hostileRecoveryKind(r, "empty-recovery"); k != "none" {
+				kinds = append(kinds, "empty-volume")
+			}
+		}
+		if !par1Set && t.Bool(1, 8, "backup-copy") {
+			rec := w.RecoveryPaths()
+			if len(rec) > 0 {
+				src := rec[t.Draw(len(rec), "which")]
+				if b, ok := w.Disk.Get(src); ok {
+					w.Disk.Put(src[:len(src)-5]+".bak.par2", b)
+					kinds = append(kinds, "backup-copy")
+				}
+			}
+		}
 		sort.Strings(kinds)
 		stateClass = fmt.Sprint(uniq(kinds))
 	}
